@@ -24,12 +24,57 @@ def cells(tier, seed):
     out = c03.cells(tier, seed, 'c04')
     for extra in (['c04b'] if tier == 'quick' else ['c04b', 'c04c', 'c04d', 'c04e', 'c04f', 'c04g']):
         out = out + c03.cells(tier, seed, extra)
+    # the large-input regime is sampled by one cell (three in the thorough tier)
+    rnd = core.rng_for(seed, PROP, 'large', tier)
+    for k in range(1 if tier == 'quick' else 3):
+        out.insert(0, {'large': True, 'biort': rnd.choice(refs.BIORTS), 'qshift': rnd.choice(refs.QSHIFTS), 'J': rnd.choice([1, 2]),
+                       'shape': [1600 + 2 * rnd.randrange(0, 20), 1600], 'N': rnd.choice([5, 7]), 'C': 1})
+    return out
+
+
+def large_cell(cell, seed):
+    """one execution in the large-input regime (more than 2^24 elements in one call, batch size not a
+    power of two): float32, judged at float32 accuracy, plus slice 0 against the same slice alone"""
+    import torch
+    import pytorch_wavelets as pw
+    N, H, W, J = cell['N'], cell['shape'][0], cell['shape'][1], cell['J']
+    fwd = pw.DTCWTForward(biort=cell['biort'], qshift=cell['qshift'], J=J)
+    inv = pw.DTCWTInverse(biort=cell['biort'], qshift=cell['qshift'])
+    x = torch.randn(N, 1, H, W, generator=util.gen(seed, 'large'), dtype=torch.float32)
+    case = {'cell': cell, 'input': 'randn-large'}
+    out = []
+    with torch.no_grad():
+        ok, pyr = util.call_lib(fwd, x)
+        if not ok:
+            return [res(VIOLATED, case, 'M-RT', 'forward raised %r' % (pyr,))]
+        ok, y = util.call_lib(inv, pyr)
+        if not ok:
+            return [res(VIOLATED, case, 'M-RT', 'inverse raised %r' % (y,))]
+        G = refs.dtcwt_gain(cell['biort'], cell['qshift'], J) * refs.dtcwt_gain(cell['biort'], cell['qshift'], J, True)
+        tol = 64 * util.EPS32 * G * float(x.abs().max())
+        worst, fail = 0.0, None
+        for n in range(N):          # per batch item, so that a lost slab is named
+            e = float((y[n, :, :H, :W] - x[n]).abs().max())
+            worst = max(worst, e / tol)
+            if e > tol and fail is None:
+                fail = 'batch item %d of %d: max|inverse(forward(x)) - x| = %.3e > tol %.3e' % (n, N, e, tol)
+        out.append(res(HELD, case, 'M-RT', ratio=worst) if fail is None else res(VIOLATED, case, 'M-RT', fail, ratio=worst))
+        # last batch item alone must give the same pyramid
+        ok, p1 = util.call_lib(fwd, x[N - 1:N])
+        if ok:
+            e = max(float((a[N - 1:N] - b).abs().max()) for a, b in zip(util.flat_outputs(pyr), util.flat_outputs(p1)))
+            t2 = 16 * util.EPS32 * refs.dtcwt_gain(cell['biort'], cell['qshift'], J) * float(x.abs().max())
+            c2 = {'cell': cell, 'input': 'randn-large', 'check': 'last item alone'}
+            out.append(res(HELD, c2, 'M-RT', ratio=e / t2) if e <= t2 else
+                       res(VIOLATED, c2, 'M-RT', 'last batch item differs from the same image transformed alone by %.3e' % e, ratio=e / t2))
     return out
 
 
 def run_cell(cell, seed):
     import torch
     import pytorch_wavelets as pw
+    if cell.get('large'):
+        return large_cell(cell, seed)
     out = []
     fwd = c03.build(cell)
     with util.default_dtype(torch.float64):
